@@ -23,6 +23,7 @@ from __future__ import annotations
 import hashlib
 import os
 import random
+import weakref
 
 from zarr.storage import WrapperStore
 
@@ -41,9 +42,16 @@ class Trace:
         self.current = None      # id of the running execution (int) or None (harness itself reading)
         self.events = []         # (exec_id, kind, key, digest) kind in get|set|del ; digest = sha1 of bytes or None
         self.enabled = True
+        self.abort_after = None  # inject a failure before the (n+1)-th write of the current execution
+        self.writes_in_current = 0
 
 
 TRACE = Trace()
+
+
+class InjectedAbort(Exception):
+    """Raised by the tracing store to cut an execution short between two of its writes (a task that
+    dies half way and is retried, a backup that is cancelled)."""
 
 
 def _digest(value):
@@ -57,16 +65,34 @@ def _digest(value):
 
 
 def _rec(kind, key, value=None):
+    if kind != "get" and TRACE.abort_after is not None and TRACE.current is not None:
+        if TRACE.writes_in_current >= TRACE.abort_after:
+            raise InjectedAbort(key)
+        TRACE.writes_in_current += 1
     if TRACE.enabled:
         TRACE.events.append((TRACE.current, kind, key, _digest(value) if kind == "set" else None))
 
 
+_LIVE = weakref.WeakValueDictionary()   # id -> TracingStore, for pickling by reference
+
+
+def _lookup_store(ident):
+    return _LIVE[ident]
+
+
 class TracingStore(WrapperStore):
     """Records which keys every execution reads and writes.  All state lives in the module-level
-    TRACE so that the copies zarr makes (`with_read_only` -> `_with_store`) keep tracing."""
+    TRACE so that the copies zarr makes (`with_read_only` -> `_with_store`) keep tracing.
+    Pickles *by reference* within the process: an in-process cloudpickle round trip of a task's
+    config must still address the one shared in-memory store (a by-value copy of a MemoryStore
+    would silently swallow the writes).  Spawned placements use a directory store instead."""
 
     def __init__(self, store):
         super().__init__(store)
+        _LIVE[id(self)] = self
+
+    def __reduce__(self):
+        return (_lookup_store, (id(self),))
 
     # -- reads ----------------------------------------------------------------------------------
     async def get(self, key, prototype, byte_range=None):
@@ -228,17 +254,20 @@ def make_executor_class():
         p_spawn      : probability that an execution is shipped to a fresh spawned process
         p_pickle     : probability that an execution goes through an in-process cloudpickle round trip
         max_spawn    : cap on spawned executions per compute
+        p_abort      : probability that a task's first execution is preceded by an attempt that dies before its
+                       first or second write, and that a re-execution dies likewise (tracing store only)
         store        : what `snapshot` is applied to around re-executions (None = no snapshots)
         """
 
         def __init__(self, seed=0, plain=False, p_now=0.3, n_after=2, n_late=2, p_spawn=0.0, p_pickle=0.0,
-                     max_spawn=3, store=None, **kwargs):
+                     max_spawn=3, store=None, p_abort=0.0, **kwargs):
             super().__init__(**kwargs)
             self.rng = random.Random(seed)
             self.plain = plain
             self.p_now, self.n_after, self.n_late = p_now, n_after, n_late
             self.p_spawn, self.p_pickle, self.max_spawn = p_spawn, p_pickle, max_spawn
             self.store = store
+            self.p_abort = p_abort
             self.executions = []     # dicts: id, op, task (index in mappable), phase, placement
             self.ops = []            # (op name, number of tasks) in execution order
             self.rerun_diffs = []    # (execution dict, [keys whose bytes changed])
@@ -250,19 +279,23 @@ def make_executor_class():
             return "adversarial"
 
         # one execution of one task
-        def _exec(self, opname, pipeline, tasks, i, phase):
+        def _exec(self, opname, pipeline, tasks, i, phase, abort_after=None):
             placement = "inproc"
-            if not self.plain:
+            if not self.plain and abort_after is None:
                 r = self.rng.random()
-                if r < self.p_spawn and self.spawned < self.max_spawn:
+                if r < self.p_spawn and self.spawned < self.max_spawn and opname != "create-arrays":
                     placement = "spawn"
                     self.spawned += 1
                 elif r < self.p_spawn + self.p_pickle:
                     placement = "pickle"
             e = {"id": len(self.executions), "op": opname, "task": i, "phase": phase, "placement": placement}
+            if abort_after is not None:
+                e["aborted_before_write"] = abort_after
             self.executions.append(e)
-            before = snapshot(self.store) if (phase != "first" and self.store is not None) else None
+            before = snapshot(self.store) if (not phase.startswith("first") and self.store is not None) else None
             TRACE.current = e["id"]
+            TRACE.abort_after = abort_after
+            TRACE.writes_in_current = 0
             try:
                 if placement == "spawn":
                     result = run_spawned(pipeline.function, tasks[i], pipeline.config, opname)
@@ -270,11 +303,15 @@ def make_executor_class():
                     result = run_pickled_inproc(pipeline.function, tasks[i], pipeline.config)
                 else:
                     result = pipeline.function(tasks[i], config=pipeline.config)
+            except InjectedAbort:
+                e["aborted"] = True
+                result = None
             except Exception as ex:  # noqa: BLE001 - reported by the oracle
                 self.errors.append((e, repr(ex)))
                 result = None
             finally:
                 TRACE.current = None
+                TRACE.abort_after = None
             if before is not None:
                 d = snap_diff(before, snapshot(self.store))
                 if d:
@@ -294,6 +331,8 @@ def make_executor_class():
                 if not self.plain:
                     rng.shuffle(order)
                 for i in order:
+                    if not self.plain and rng.random() < self.p_abort:
+                        self._exec(opname, pipeline, tasks, i, "first-aborted", abort_after=rng.randint(0, 1))
                     result = self._exec(opname, pipeline, tasks, i, "first")
                     if callbacks is not None:
                         event = TaskEndEvent(name=opname, result=result)
@@ -301,7 +340,8 @@ def make_executor_class():
                             cb.on_task_end(event)
                     if not self.plain:
                         while rng.random() < self.p_now:
-                            self._exec(opname, pipeline, tasks, i, "dup-now")
+                            self._exec(opname, pipeline, tasks, i, "dup-now",
+                                       abort_after=rng.randint(0, 1) if rng.random() < self.p_abort else None)
                 if not self.plain and n:
                     for _ in range(rng.randint(0, self.n_after)):
                         self._exec(opname, pipeline, tasks, rng.randrange(n), "dup-after-op")
